@@ -17,40 +17,81 @@ itself) with `0 < T` and `H + T` not overflowing is put on the list of height `H
 theorem C06_request_recorded_at_deadline (cfg : Cfg) (l : Led) (h : Nat) (s : String) (f t : SvcId) (idx : Nat)
     (T : Int) (p : ProofKind) (rc : Rcpt)
     (hok : rc.ok = true) (hnb : rc.ret ≠ "batch_ibtp") (hnf : rc.txStatus ≠ 1) (hdst : t.chain ≠ cfg.bxh)
-    (hT : 0 < T) (hov : T.toNat < maxU64 - h) :
+    (hT : 0 < T) (hov : T.toNat < maxU64 - h)
+    (hopen : finalInterRecord l { frm := f, to := t, index := idx } = none) :
     timeoutAct cfg l h (.ibtp s (plainReq f t idx T) p) rc = .add (h + T.toNat) { frm := f, to := t, index := idx } := by
   unfold timeoutAct plainReq
   have h1 : (t.chain == cfg.bxh) = false := by simpa using hdst
   have h2 : (rc.ret == "batch_ibtp") = false := by simpa using hnb
   have h3 : (rc.txStatus == 1) = false := by simpa using hnf
-  simp [h1, h2, h3, hok, IType.isRequest]
+  simp [h1, h2, h3, hok, IType.isRequest, hopen]
   omega
+
+/-- the hypothesis `hopen` above holds for every transaction inside one hub, and between two hubs as long as the record is not final -/
+theorem finalInterRecord_none_of_local (l : Led) (id : TxId) (h : id.frm.bxh = id.to.bxh) : finalInterRecord l id = none := by
+  simp [finalInterRecord, h]
+
+theorem finalInterRecord_none_of_open (l : Led) (id : TxId) (r : Rec) (hrec : l.getS (.txRec id) = some (.trec r))
+    (hw : r.status.isFinal = false) : finalInterRecord l id = none := by
+  simp [finalInterRecord, hrec, hw]
+
+/-- **the destination hub's notice takes the transaction off its list** (since the `fix:` commit "the destination hub's notice
+ends an inter-BitXHub transaction for the timeout mechanism too"): a request between two hubs whose record is final by the end
+of its block — whatever its receipt says, also "batch_ibtp" — asks for removal from the list of the recorded deadline and is
+booked under no new one.  Before the fix it was booked under `h + T` like a fresh request and stayed on the first list. -/
+theorem C06_notice_leaves_list (cfg : Cfg) (l : Led) (h : Nat) (s : String) (f t : SvcId) (idx : Nat)
+    (T : Int) (x : Ext) (p : ProofKind) (rc : Rcpt) (r : Rec)
+    (hdst : t.chain ≠ cfg.bxh) (hhub : f.bxh ≠ t.bxh)
+    (hrec : l.getS (.txRec { frm := f, to := t, index := idx }) = some (.trec r)) (hfin : r.status.isFinal = true) :
+    timeoutAct cfg l h (.ibtp s { plainReq f t idx T with ext := x } p) rc = .remove r.height { frm := f, to := t, index := idx } := by
+  unfold timeoutAct plainReq
+  have h1 : (t.chain == cfg.bxh) = false := by simpa using hdst
+  have h4 : finalInterRecord l { frm := f, to := t, index := idx } = some r.height := by
+    simp [finalInterRecord, hrec, hfin, hhub]
+  simp [h1, IType.isRequest, IType.isResponse, h4]
 
 /-- requests with `T ≤ 0` (hence `T = 0`) or an overflowing `H + T` are never put on any list -/
 theorem C06_zero_never (cfg : Cfg) (l : Led) (h : Nat) (s : String) (f t : SvcId) (idx : Nat)
-    (T : Int) (p : ProofKind) (rc : Rcpt) (hT : T ≤ 0 ∨ T.toNat ≥ maxU64 - h) :
+    (T : Int) (p : ProofKind) (rc : Rcpt) (hT : T ≤ 0 ∨ T.toNat ≥ maxU64 - h)
+    (hopen : finalInterRecord l { frm := f, to := t, index := idx } = none) :
     timeoutAct cfg l h (.ibtp s (plainReq f t idx T) p) rc = .skip := by
   unfold timeoutAct plainReq
-  simp only [IType.isRequest]
+  simp only [IType.isRequest, hopen]
   split
   · rfl
   · simp [hT]
 
-/-- a rejected request (FAILED receipt), a batch request and a begin-failed request are never listed -/
+/-- a rejected request (FAILED receipt), a batch request and a begin-failed request are never listed: no list gains an entry
+(between two hubs, with a final record, it is the notice and leaves the list: `C06_notice_leaves_list`) -/
 theorem C06_rejected_never (cfg : Cfg) (l : Led) (h : Nat) (s : String) (i : Ibtp) (p : ProofKind) (rc : Rcpt)
     (hreq : i.typ.isResponse = false)
-    (hrej : rc.ok = false ∨ rc.ret = "batch_ibtp" ∨ rc.txStatus = 1) :
-    timeoutAct cfg l h (.ibtp s i p) rc = .skip := by
+    (hrej : rc.ok = false ∨ rc.ret = "batch_ibtp" ∨ rc.txStatus = 1) (th : Nat) (id : TxId) :
+    timeoutAct cfg l h (.ibtp s i p) rc ≠ .add th id := by
   simp only [timeoutAct]
   cases hf : i.frm with
-  | none => rfl
+  | none => simp
   | some f =>
     cases ht : i.to with
-    | none => rfl
+    | none => simp
     | some t =>
-      have : (t.chain == cfg.bxh || (i.group.isSome && !i.typ.isResponse) || ((!rc.ok || rc.ret == "batch_ibtp") && !i.typ.isResponse) || rc.txStatus == 1) = true := by
+      have : (((!rc.ok || rc.ret == "batch_ibtp") && !i.typ.isResponse) || rc.txStatus == 1) = true := by
         rcases hrej with h1 | h1 | h1 <;> simp [h1, hreq]
       simp only [this, if_true]
+      split
+      · simp
+      · split <;> (try split) <;> simp
+
+/-- … and when the transaction is not one that a notice has ended, the bookkeeping leaves it alone altogether -/
+theorem C06_rejected_skipped (cfg : Cfg) (l : Led) (h : Nat) (s : String) (i : Ibtp) (p : ProofKind) (rc : Rcpt) (f t : SvcId)
+    (hf : i.frm = some f) (ht : i.to = some t)
+    (hreq : i.typ.isResponse = false)
+    (hrej : rc.ok = false ∨ rc.ret = "batch_ibtp" ∨ rc.txStatus = 1)
+    (hopen : finalInterRecord l { frm := f, to := t, index := i.index } = none) :
+    timeoutAct cfg l h (.ibtp s i p) rc = .skip := by
+  simp only [timeoutAct, hf, ht, hopen]
+  have : (((!rc.ok || rc.ret == "batch_ibtp") && !i.typ.isResponse) || rc.txStatus == 1) = true := by
+    rcases hrej with h1 | h1 | h1 <;> simp [h1, hreq]
+  simp [this]
 
 /-- a receipt asks for removal from the list of the recorded timeout height exactly when the
 request no longer waits: it was accepted plainly, or it is counted as invalid ("batch_ibtp" of an
